@@ -393,19 +393,28 @@ def r27_5(ctx, m, mod, okl):
     # creation: `if FLAG: subfolders += [LIT]`  or  `for flag, sub in [(FLAG, LIT), ...]: if flag: subfolders += [sub]`
     creation = {}
     shape_ok = True
+    # the list of sub-directories: the name iterated by the loop that calls makedirs(join(output_directory, <loop var>))
+    sfn = None
+    for st in walk_no_nested(okl.node):
+        if isinstance(st, ast.For) and isinstance(st.iter, ast.Name) and isinstance(st.target, ast.Name) and any(
+                isinstance(c, ast.Call) and call_name(c) == "makedirs" and st.target.id in src(c) for c in ast.walk(st)):
+            sfn = st.iter.id
+    if sfn is None:
+        ctx.und("R27.5", f"{okl.key}::sub-directory creation", "makedirs loop not found", okl)
+        return
     for st in walk_no_nested(okl.node):
         if isinstance(st, ast.If) and isinstance(st.test, ast.Name):
             for s2 in st.body:
-                if isinstance(s2, ast.AugAssign) and src(s2.target) == "subfolders" and isinstance(s2.value, ast.List):
+                if isinstance(s2, ast.AugAssign) and src(s2.target) == sfn and isinstance(s2.value, ast.List):
                     for e in s2.value.elts:
                         if isinstance(e, ast.Constant):
                             creation[e.value] = st.test.id
                         elif isinstance(e, ast.Name):
                             shape_ok = shape_ok and False
         if isinstance(st, ast.For) and isinstance(st.iter, (ast.List, ast.Tuple)) and isinstance(st.target, ast.Tuple) and len(st.target.elts) == 2 \
-                and any("subfolders" in src(x) for x in ast.walk(st)):
+                and any(isinstance(x, ast.Name) and x.id == sfn for x in ast.walk(st)):
             fl, sub = [src(e) for e in st.target.elts]
-            body_ok = any(isinstance(b, ast.If) and src(b.test) == fl and any(isinstance(s2, ast.AugAssign) and src(s2.target) == "subfolders"
+            body_ok = any(isinstance(b, ast.If) and src(b.test) == fl and any(isinstance(s2, ast.AugAssign) and src(s2.target) == sfn
                                                                                and src(s2.value) == f"[{sub}]" for s2 in b.body) for b in st.body)
             if body_ok:
                 shape_ok = True
